@@ -142,23 +142,24 @@ class Ctx:
         self.counts['config:bodies compared'] = self._cfg_n; self.counts['config:bodies with debug_assert'] = self._cfg_ndbg
         if self._cfg_n == 0 and not self.only and any(self.visited.values()):
             self.internal.append('configuration pass matched none of the interpreted bodies')
-        self.assumptions.append('configuration pass: %d interpreted vek bodies compared between the analysed build (debug assertions, cfg(nightly)) and a release build with cfg(stable), per feature set used by the check (%d); overflow checks kept on in both (integer overflow is outside every claim); other targets (pointer width, OS) are not compared' % (self._cfg_n, len(self.cpasses)))
+        self.assumptions.append('configuration pass: %d interpreted vek bodies compared between the analysed build (debug assertions, cfg(nightly)) and a release build with cfg(stable) and libm for std, and a build with every optional feature, per feature set used by the check (%d); overflow checks kept on in both (integer overflow is outside every claim); other targets (pointer width, OS) are not compared' % (self._cfg_n, len(self.cpasses)))
 
     def _config_invariance(self, cp, visited):
-        RULE = 'config: every vek body interpreted by this check has identical MIR in a release build with the stable-channel cfg (literals of debug_assert! masked), so the verdict transfers to the configurations users build'
+        RULE = 'config: every vek body interpreted by this check has identical MIR in a release build with the stable-channel cfg and libm in place of std (literals of debug_assert! masked), so the verdict transfers to the configurations users build'
         RULE2 = 'config: code inside a debug_assert! invocation (absent from release builds) has no effect other than panicking'
         cp.join()
-        for i, what in ((0, 'analysed configuration'), (1, 'release + stable-channel configuration')):
+        for i, what in enumerate(cp.what):
             if cp.err[i] or cp.res[i] is None:
                 self.internal.append('configuration pass (%s) failed: %s' % (what, cp.err[i])); return
             if cp.res[i].compile_error is not None:
                 err = first_error(cp.res[i].compile_error)
-                self.viol('cfg/build/%s' % what.replace(' ', '-'), rule='config: vek compiles in the %s' % what, where=err.get('where', ''), found=err.get('msg', ''), expected='compiles', detail=cp.res[i].compile_error[-3000:]); return
+                self.viol('cfg/build/%d' % i, rule='config: vek compiles in the %s' % what, where=err.get('where', ''), found=err.get('msg', ''), expected='compiles', detail=cp.res[i].compile_error[-3000:]); return
             if len(cp.res[i].local) != 1:
                 self.internal.append('configuration pass (%s): %d local fact files' % (what, len(cp.res[i].local))); return
-        a, b = cp.res[0].local[0], cp.res[1].local[0]
-        keys = a['bodykeys']; fa, fb = a['fingerprints'], b['fingerprints']
-        dbg = dict(a.get('debug_assert_bodies', {})); dbg.update(b.get('debug_assert_bodies', {}))
+        a, b, c = (cp.res[i].local[0] for i in range(3))
+        keys = a['bodykeys']; fa, fb, fc = a['fingerprints'], b['fingerprints'], c['fingerprints']
+        dbg = dict(a.get('debug_assert_bodies', {})); dbg.update(b.get('debug_assert_bodies', {})); dbg.update(c.get('debug_assert_bodies', {}))
+        RULE3 = 'config: every vek body interpreted by this check has identical MIR when every optional cargo feature is enabled (a feature only adds items)'
         n = 0; ndbg = 0
         for v in sorted(visited):
             if v not in keys: continue            # a body of num-traits / approx / core
@@ -167,7 +168,8 @@ class Ctx:
             self._cfg_seen.add(name)
             n += 1
             where = '%s:%s-%s %s' % (file, lo, hi, name)
-            self.ob('cfg/%s/same-in-release-stable-build' % name, name in fb and fa.get(name) == fb.get(name), RULE, where, 'identical normalised MIR', 'differs between build configurations' if name in fb else 'body absent from the release/stable build')
+            self.ob('cfg/%s/same-in-release-stable-build' % name, name in fb and fa.get(name) == fb.get(name), RULE, where, 'identical normalised MIR', ('differs in the %s' % cp.what[1]) if name in fb else 'body absent from the %s' % cp.what[1])
+            self.ob('cfg/%s/same-with-all-features' % name, name in fc and fa.get(name) == fc.get(name), RULE3, where, 'identical normalised MIR', ('differs in the %s' % cp.what[2]) if name in fc else 'body absent from the %s' % cp.what[2])
             if name in dbg:
                 ndbg += 1
                 self.ob('cfg/%s/debug-assert-pure' % name, not dbg[name][1], RULE2, where, 'no write, mutable borrow or move of anything but temporaries', dbg[name][1])
